@@ -203,6 +203,10 @@ else:
                     smooth = self.walk_interval // len(self.strategies) if self.strategies else 0
                     ticker = len(self.strategies)
                     for strategy, target_peers in self.strategies:
+                        if (strategy, target_peers) not in self.strategies:
+                            # By awaiting, the overlay of this strategy might have been unloaded.
+                            ticker -= 1 if ticker else 0
+                            continue
                         start_time = time.time()
                         try:
                             # We wrap the take_step into a general except as it is prone to programmer error.
